@@ -180,7 +180,7 @@ def bound_writers(ctx, db):
     rid = ctx.rule('C04.bound-party', 'WHO', 'the pointer that decides where the result goes (async_promise::_future) is written only by start_promise (from claim()) and by the co_await '
                    'awaiter; the result is stored only through it (async_promise::resolve / unhandled_exception)', floor=2)
     found = who(db, lambda f, e: e.k == 'write' and field_of(e) == shared.FUT and not e.get('init'))
-    check_who(ctx, rid, found, {'cocls::async::start_promise', 'cocls::async::co_awaiter::await_suspend'}, 'write of async_promise::_future')
+    check_who(ctx, rid, found, {'cocls::async::start_promise', 'cocls::async::co_awaiter::await_suspend'}, 'write of async_promise::_future', db=db)
     for name in ('cocls::async_promise::resolve', 'cocls::async_promise::unhandled_exception'):
         for f in db.need(name)[:1]:
             ss = [e for e in f.events() if e.k == 'call' and norm(e.get('callee')) in shared.SET]
